@@ -7,38 +7,50 @@ import (
 
 	"github.com/meshplus/bitxhub-model/pb"
 	"github.com/meshplus/bitxhub/verif/harness"
+	"github.com/meshplus/bitxhub/verif/model"
 )
 
 func init() { workloads["smoke"] = smoke }
 
-// smoke is a scratch probe (not part of any check): transfers whose From / To are absent on the wire.
+// smoke is a scratch probe (not part of any check): service ids containing the separators of the timeout list.
 func smoke(args []string) int {
 	dir, _ := ioutil.TempDir("", "smoke.")
 	defer os.RemoveAll(dir)
+	if err := buildHubFixture(dir, harness.Options{}); err != nil {
+		fmt.Println(err)
+		return 1
+	}
 	w, err := harness.OpenWorld(dir, harness.Options{})
 	if err != nil {
 		fmt.Println(err)
 		return 1
 	}
 	defer w.R.Close()
-	for _, kind := range []string{"to-nil", "from-nil", "both-nil"} {
-		tx := w.Transfer(harness.AdminKey(0), harness.User(1).Addr, "5")
-		if kind != "from-nil" {
-			tx.To = nil
-		}
-		if kind != "to-nil" {
-			tx.From = nil
-		}
-		txs := harness.WireRoundTrip([]pb.Transaction{tx})
-		bt := txs[0].(*pb.BxhTransaction)
-		fmt.Printf("%s: after the wire From=%v To=%v\n", kind, bt.From, bt.To)
-		res, err := w.R.ExecBlock(txs, w.TS+1000, nil)
-		w.TS += 1000
+	for _, svc := range []string{"s-x", "s,x"} {
+		err := w.RegisterService(harness.ChainAdmin(harness.ChainA), harness.ChainA, svc, true, "")
+		fmt.Printf("RegisterService chainA:%s: %v\n", svc, err)
+	}
+	odd := hubID + ":chainX:mint,burn,swap"
+	if len(args) > 0 {
+		odd = args[0]
+	}
+	a1, b1, c1 := harness.FullID(harness.ChainA, "s1"), harness.FullID(harness.ChainB, "s1"), harness.FullID(harness.ChainC, "s1")
+	res, err := w.Exec(w.IBTPTx(harness.User(0), harness.MkIBTP(a1, odd, 1, pb.IBTP_INTERCHAIN, 2), []byte("p")),
+		w.IBTPTx(harness.User(0), harness.MkIBTP(b1, c1, 1, pb.IBTP_INTERCHAIN, 2), []byte("p")))
+	if err != nil {
+		fmt.Println("exec:", err)
+		return 1
+	}
+	for i, rc := range res.Receipts {
+		fmt.Printf("h%d tx%d: %v %.100s\n", res.Height, i, rc.Status, string(rc.Ret))
+	}
+	for k := 0; k < 3; k++ {
+		res, err := w.Exec(w.Transfer(harness.User(1), harness.User(2).Addr, "1"))
 		if err != nil {
-			fmt.Println(kind, "exec error:", err)
-			continue
+			fmt.Println("exec:", err)
+			return 1
 		}
-		fmt.Printf("%s: receipt %v %.80s\n", kind, res.Receipts[0].Status, string(res.Receipts[0].Ret))
+		fmt.Printf("h%d timeout notifications %v; status odd=%s normal=%s\n", res.Height, res.Meta.TimeoutCounter, model.StName[w.Status(a1+"-"+odd+"-1")], model.StName[w.Status(b1+"-"+c1+"-1")])
 	}
 	return 0
 }
